@@ -3,7 +3,6 @@
 From Pybtex Require Import Base.Prelude Base.PyChar Base.PyStr Model.RtTypes Model.RichText
   Spec.Flat Spec.FlatOps Proofs.RichText Proofs.RichSlice Proofs.RichOps Proofs.RichWf Proofs.RichInj.
 
-Definition good (t : rt) : Prop := normal t = true /\ wf t.
 Definition goodp (t : rt) : Prop := part_ok t = true /\ wf t.
 
 Lemma goodp_good t : goodp t -> good t.
